@@ -56,6 +56,8 @@ let step_of = function
   | Ls [At "raise"] -> TRaise
   | Ls [At "af"; f; w] -> TAssertFlag (n_of f, bool_of w)
   | Ls [At "ac"; h] -> TAssertConst (bool_of h)
+  | Ls [At "res"; r; v] -> TRes (n_of r, n_of v)
+  | Ls [At "ar"; r; v] -> TAssertRes (n_of r, n_of v)
   | x -> failwith ("bad step " ^ sexp_to_string x)
 
 let test_of = function
